@@ -17,7 +17,12 @@ EXTENDS Sort, Json, TLC
 
 CONSTANTS NSMALL,   \* number of small cases (0..8 rows)
           NBIG,     \* number of big cases (20..40 rows, for spills / multi-level merges)
-          NEDGE     \* number of edge cases (0/1 rows, all-equal keys, all NULL)
+          NEDGE,    \* number of edge cases (0/1 rows, all-equal keys, all NULL)
+          NMED,     \* medium cases (33..131 rows, odd and even): spilled runs with odd-sized batches
+          NREV,     \* adversarial arrival orders (reverse sorted / already sorted): every row replaces
+                    \* a TopK heap row, heap compaction, early-exhausted merge inputs
+          NTIE,     \* 10..40 rows over two values per key, fetch inside a group of equal keys
+          NLARGE    \* large single-key cases (514..2051 rows) whose sorted order is given in closed form
 
 VARIABLE c
 vars == <<c>>
@@ -70,6 +75,63 @@ Big(i) ==
       n  == RandomElement(20..40)
   IN Case("B", i, ty, RandKeys(nk), RandRows(ty, n), RandomElement({0 - 1, 0 - 1, 1, 5, 17, n + 1}), RandomElement(1..4))
 
+Med(i) ==
+  LET nk == RandomElement(1..3)
+      ty == RandTypes(nk)
+      n  == RandomElement({33, 34, 66, 67, 130, 131})
+  IN Case("M", i, ty, RandKeys(nk), RandRows(ty, n), RandomElement({0 - 1, 0 - 1, 0 - 1, 7, 64, n - 1}), RandomElement(2..4))
+
+Reverse(s) == [i \in 1..Len(s) |-> s[Len(s) + 1 - i]]
+Rev(i) ==
+  LET nk == RandomElement(1..3)
+      ty == RandTypes(nk)
+      n  == RandomElement(6..40)
+      keys == RandKeys(nk)
+      base == SortSeq(FixZeros(RandRows(ty, n), i), keys)
+      rows == IF RandomElement(BOOLEAN) THEN Reverse(base) ELSE base
+  IN Case("W", i, ty, keys, rows, RandomElement({0 - 1, 1, 2, 3, 5, n - 1}), RandomElement(1..4))
+
+Tie(i) ==
+  LET nk == RandomElement(1..2)
+      ty == RandTypes(nk)
+      n  == RandomElement(10..40)
+      pick == [j \in 1..nk |-> {RandomElement(Dom(ty[j])), RandomElement(Dom(ty[j]))}]
+      rows == [r \in 1..n |-> TieRow(ty, r, pick)]
+  IN Case("T", i, ty, RandKeys(nk), rows, RandomElement(1..n), RandomElement(1..4))
+
+(***************************************************************************)
+(* Large cases: n rows, one integer key.  Row i (0-based) has               *)
+(*   p(i) = (a * i) % n   (a coprime to n: a permutation of 0..n-1)         *)
+(*   key  = NULL if p < z, else p \div t  (t > 1 gives ties), id = i + 1    *)
+(* so listing the rows by ascending p lists NULLs first and then the keys   *)
+(* in non-decreasing order; the four option combinations are the four       *)
+(* obvious rearrangements of that listing.  inv is the inverse of a mod n.  *)
+(***************************************************************************)
+LargeParams == {[n |-> 514, a |-> 3, inv |-> 343], [n |-> 1030, a |-> 3, inv |-> 687],
+                [n |-> 2050, a |-> 3, inv |-> 1367], [n |-> 2051, a |-> 2, inv |-> 1026],
+                [n |-> 515, a |-> 2, inv |-> 258]}
+Large(i) ==
+  LET q  == RandomElement(LargeParams)
+      n  == q.n
+      t  == RandomElement({1, 1, 2, 7})
+      z  == RandomElement({0, 0, 1, 5})
+      desc == RandomElement(BOOLEAN)
+      nf == RandomElement(BOOLEAN)
+      KeyAt(p) == IF p < z THEN Null ELSE I(p \div t)
+      RowAtP(p) == <<KeyAt(p), I(((q.inv * p) % n) + 1)>>
+      rows == [r \in 1..n |-> <<KeyAt((q.a * (r - 1)) % n), I(r)>>]
+      \* position j (1-based) of the sorted output -> p
+      PAt(j) == IF ~desc /\ nf THEN j - 1
+                ELSE IF ~desc /\ ~nf THEN (IF j <= n - z THEN z + j - 1 ELSE j - (n - z) - 1)
+                ELSE IF desc /\ nf THEN (IF j <= z THEN j - 1 ELSE n - 1 - (j - z - 1))
+                ELSE (IF j <= n - z THEN n - j ELSE j - (n - z) - 1)
+      s == [j \in 1..n |-> RowAtP(PAt(j))]
+      fetch == RandomElement({0 - 1, 0 - 1, 0 - 1, 100, n - 1})
+  IN [sec |-> "L", types |-> <<"i">>, keys |-> <<[col |-> 1, desc |-> desc, nf |-> nf]>>, rows |-> rows,
+      sorted |-> s, fetch |-> fetch, pl |-> 1, presorted |-> s, np |-> RandomElement(2..4),
+      assign |-> [j \in 1..n |-> 1 + (j % 2)],
+      ptk |-> [k |-> 0, rownumber |-> <<>>, rank |-> <<>>, denserank |-> <<>>]]
+
 Edge(i) ==
   LET nk == RandomElement(1..3)
       ty == RandTypes(nk)
@@ -82,6 +144,10 @@ Init ==
   \/ \E i \in 1..NSMALL : c = Small(i)
   \/ \E i \in 1..NBIG : c = Big(i)
   \/ \E i \in 1..NEDGE : c = Edge(i)
+  \/ \E i \in 1..NMED : c = Med(i)
+  \/ \E i \in 1..NREV : c = Rev(i)
+  \/ \E i \in 1..NTIE : c = Tie(i)
+  \/ \E i \in 1..NLARGE : c = Large(i)
 Next == UNCHANGED vars
 Spec == Init /\ [][Next]_vars
 
@@ -89,7 +155,16 @@ Emit == PrintT(<<"CASE", ToJson(c)>>)
 
 OneZero == \A j \in 1..Len(c.keys) : ~(\E r1, r2 \in 1..Len(c.rows) : c.rows[r1][j] = F(2) /\ c.rows[r2][j] = F(3))
 
+\* large cases: linear-time check that `sorted` is a sorted permutation of `rows` (ids are 1..n)
+SaneLarge ==
+  LET n == Len(c.rows) IN
+  /\ Len(c.sorted) = n
+  /\ Sorted(c.sorted, c.keys)
+  /\ \A j \in 1..n : c.sorted[j][2].v \in 1..n /\ c.rows[c.sorted[j][2].v] = c.sorted[j]
+  /\ Cardinality({c.sorted[j][2].v : j \in 1..n}) = n
+
 Sane ==
+  IF c.sec = "L" THEN SaneLarge ELSE
   /\ OneZero
   /\ IsSortOf(c.sorted, c.rows, c.keys)
   /\ IsTopKOf(Prefix(c.sorted, IF c.fetch < 0 THEN Len(c.sorted) ELSE c.fetch), c.rows, c.keys, c.fetch)
